@@ -123,6 +123,10 @@ class Loop(abc.ABC, Generic[_T]):
         try:
             self.loop()
         except Quit:
+            pass
+        finally:
+            # Whatever the reason (Quit, or an error in user code), the
+            # loop is not running anymore
             self.running = False
 
     @abc.abstractmethod
@@ -192,8 +196,12 @@ class SimpleLoop(Loop[World]):
 
         See :meth:`Loop.start` for more details.
         """
-        super().start()
-        self.last_timestamp = None
+        try:
+            super().start()
+        finally:
+            # Also when leaving because of an error, otherwise the first
+            # delta time of the next start would not be 0
+            self.last_timestamp = None
 
     def loop(self):
         """Simple main loop.
